@@ -6,6 +6,7 @@ import datetime as _dt
 import hashlib
 import math
 from decimal import Decimal
+from fractions import Fraction
 
 
 def dumps(x, indent=None):
@@ -25,6 +26,8 @@ def _fmt(x):
         return repr(x)
     if isinstance(x, Decimal):
         return "Decimal(%r)" % str(x)
+    if isinstance(x, Fraction):
+        return "Fraction(%d, %d)" % (x.numerator, x.denominator)
     if isinstance(x, _dt.datetime):
         return "datetime(%d,%d,%d,%d,%d,%d,%d)" % (x.year, x.month, x.day, x.hour, x.minute,
                                                    x.second, x.microsecond)
@@ -48,7 +51,7 @@ def _fmt(x):
 _NS = {
     "__builtins__": {},
     "None": None, "True": True, "False": False,
-    "Decimal": Decimal, "datetime": _dt.datetime, "date": _dt.date, "time": _dt.time,
+    "Decimal": Decimal, "Fraction": Fraction, "datetime": _dt.datetime, "date": _dt.date, "time": _dt.time,
     "inf": float("inf"), "nan": float("nan"), "set": set,
 }
 
